@@ -166,6 +166,9 @@ _G_ELIG = dgen(NEPs="{2, 3}", GKinds='{"ok", "reset_pre"}', Balancers='{"priorit
 
 _G_PANIC = dgen(NEPs="{1, 2}", GKinds='{"ok", "panic", "reset_pre"}', Balancers='{"round-robin"}', NSteps=2)
 
+# dial timeouts (C04: "unreachable or timed out"): a black-holed backend next to working / refusing ones
+_G_DIALTO = dgen(NEPs="{2, 3}", GKinds='{"ok", "dial_timeout", "refuse"}', Balancers='{"priority", "round-robin"}')
+
 _DISPATCH_BASE = {
     "name": "dispatch",
     "mc": [{"module": "Dispatch", "cfg": "Dispatch_mc.cfg"}],
@@ -200,7 +203,7 @@ PROPS["C04"] = {
     "rule": _DISPATCH_RULE, "exhaustive": False,
     "assumptions": ["'timed out' dial failures are not produced in the sandbox (no black-hole address); "
                     "refused and reset connections are"],
-    "parts": [dpart([_G_SINGLE2, _G_FOUR, _G_BREAKER, _G_TWOSTEP], [_G_SINGLE3, _G_FOUR, _G_BREAKER, _G_TWOSTEP], 8000)],
+    "parts": [dpart([_G_SINGLE2, _G_FOUR, _G_BREAKER, _G_TWOSTEP, _G_DIALTO], [_G_SINGLE3, _G_FOUR, _G_BREAKER, _G_TWOSTEP, _G_DIALTO], 8000)],
 }
 PROPS["C04"]["parts"][0]["quick"]["sample"] = 1200
 
